@@ -35,6 +35,15 @@ fn run_ops<I: Interner<TokenKey>>(i: &mut I, ops: &[&str]) -> String {
                     Some(k) => out.push(format!("k{}", k.into_u32())),
                 }
             }
+            // the lasso view of a cstree key: usize -> TokenKey -> usize (64-bit raw values)
+            #[cfg(feature = "lasso")]
+            "u" => {
+                let raw: u64 = rest.parse().unwrap();
+                match <TokenKey as lasso::Key>::try_from_usize(raw as usize) {
+                    None => out.push("x".to_string()),
+                    Some(k) => out.push(format!("k{}", lasso::Key::into_usize(k))),
+                }
+            }
             _ => panic!("bad intern op {op}"),
         }
     }
